@@ -1,7 +1,7 @@
 (* C12  The API JSON is a complete, internally consistent inventory (container, serialisation order, ids). *)
 From Coq Require Import List String Ascii ZArith Bool Permutation Sorting.Sorted. Import ListNotations.
 From SV Require Import Lib.Str Model.Types Model.Api Model.FrontSmall Proofs.FrontSmallProofs.
-From SV Require Import Model.View Model.Front Proofs.WalkProofs.
+From SV Require Import Model.View Model.Front Model.Json Proofs.WalkProofs Proofs.JsonProofs.
 
 (* every top-level list is sorted by id and free of duplicates, whatever the order of registration *)
 Theorem C12_lists_sorted_nodup : forall (V : Type) (ops : list (str * V)),
@@ -43,9 +43,22 @@ Theorem C12_front_class_ids : forall al d pref_doc warn st c st' w top rest,
     map c_name (c_classes cl) = map cd_name (member_classes (class_walked c)) /\
     map c_id (c_classes cl) = map (fun x => c_id cl ++ K"/" ++ cd_name x) (member_classes (class_walked c)).
 Proof. exact class_inventory. Qed.
+(* WHOLE ANALYZER AND SERIALISATION (Model/Json.v mirrors API.to_dict): in the JSON value of every run each of the eight top-level
+   lists is sorted by id and free of duplicate ids *)
+Theorem C12_json_lists_sorted : forall v o, front v = Ok o ->
+  sorted_nodup m_id (sort_by_key m_id (api_modules (o_api o))) /\
+  sorted_nodup c_id (sorted_values c_id (api_classes (o_api o))) /\
+  sorted_nodup f_id (sorted_values f_id (fl_functions (o_flatd o))) /\
+  sorted_nodup r_id (sorted_values r_id (fl_results (o_flatd o))) /\
+  sorted_nodup e_id (sorted_values e_id (fl_enums (o_flatd o))) /\
+  sorted_nodup fst (sort_by_key fst (fl_enum_insts (o_flatd o))) /\
+  sorted_nodup a_id (sorted_values a_id (fl_attrs (o_flatd o))) /\
+  sorted_nodup p_id (sorted_values p_id (fl_params (o_flatd o))).
+Proof. exact front_json_lists_sorted. Qed.
 Print Assumptions C12_lists_sorted_nodup.
 Print Assumptions C12_lists_complete.
 Print Assumptions C12_id_form.
 Print Assumptions C12_front_module_ids.
 Print Assumptions C12_front_single_owner.
 Print Assumptions C12_front_class_ids.
+Print Assumptions C12_json_lists_sorted.
